@@ -10,8 +10,16 @@ import (
 // probe: minimal reproductions of the C19 findings on the real kernel contracts (prints what happens;
 // `c19 probe`). Not used by the check's verdict; the same histories occur in the generated behaviours.
 func probe(args []string) error {
+	chooseKeys(map[string]bool{"b": true})
+	lower := 0
+	for i := 0; i < 300; i++ {
+		if fx.GetKey(fmt.Sprintf("c19-sample-%d", i)).Address[0] >= '`' {
+			lower++
+		}
+	}
+	fmt.Printf("addresses starting with a lowercase letter: %d of 300 sampled keys; a=%s b=%s c=%s\n", lower, addr("a"), addr("b"), addr("c"))
 	run := func(title string, prog []fx.Ev) error {
-		s, err := newSim("probe", 3500, 1500, 2, map[string]int{})
+		s, err := newSim("probe", 3500, 1000, 2, map[string]int{})
 		if err != nil {
 			return err
 		}
@@ -40,7 +48,14 @@ func probe(args []string) error {
 			{"op": "init", "by": "a"},
 			{"op": "propose", "by": "b", "stop": 9, "trig": 0, "pct": 51, "tok": "ok"},
 			{"op": "transfer", "by": "a", "to": "b", "amt": 0},
-			{"op": "transfer", "by": "b", "to": "a", "amt": 1500},
+			{"op": "transfer", "by": "b", "to": "a", "amt": 1000},
+		}},
+		{"KF_UnlockSkipsLowercaseAddr: b (lowercase-initial address) keeps its proposal lock after the proposal is rejected", []fx.Ev{
+			{"op": "init", "by": "a"},
+			{"op": "propose", "by": "b", "stop": 4, "trig": 0, "pct": 51, "tok": "ok"},
+			{"op": "vote", "by": "a", "pid": 1, "amt": 500},
+			{"op": "tick"},
+			{"op": "tick"},
 		}},
 		{"proposal life cycle", []fx.Ev{
 			{"op": "init", "by": "b"},
@@ -52,9 +67,17 @@ func probe(args []string) error {
 			{"op": "tick"},
 			{"op": "tick"},
 			{"op": "tick"},
-			{"op": "tvote", "by": "b", "amt": 500},
-			{"op": "trevoke", "by": "b", "amt": 1000},
-			{"op": "trevoke", "by": "b", "amt": 500},
+			{"op": "tvote", "by": "b", "cand": "a", "amt": 500},
+			{"op": "tnom", "by": "a", "amt": 500},
+			{"op": "tnom", "by": "a", "amt": 500},
+			{"op": "tvote", "by": "b", "cand": "a", "amt": 500},
+			{"op": "trevoke", "by": "b", "cand": "a", "amt": 1000},
+			{"op": "trevoke", "by": "b", "cand": "a", "amt": 500},
+			{"op": "trevoke", "by": "b", "cand": "a", "amt": 500},
+			{"op": "trevnom", "by": "b"},
+			{"op": "trevnom", "by": "a"},
+			{"op": "trevnom", "by": "a"},
+			{"op": "tvote", "by": "b", "cand": "a", "amt": 500},
 		}},
 	}
 	for _, p := range progs {
